@@ -49,7 +49,7 @@ ASSUMPTIONS = ['expected EUI-64 address = (address & prefix mask) | ((mac[0:3] ^
                'params() is compared with the generator\'s own decoded pairs where no pair has a blank value '
                '(parse_qsl drops those: DONT-CARE) and the query is not polluted by a kept fragment',
                'only str URLs; bytes URLs are outside the quantifier']
-INTERPRETER_FLAGS = [[], ['-O'], [], ['-bb']]
+INTERPRETER_FLAGS = [[], ['-O'], ['-X', 'dev'], ['-bb']]
 SHARDS = {'quick': 4, 'thorough': 16}
 
 M64 = (1 << 64) - 1
@@ -58,7 +58,7 @@ M48 = (1 << 48) - 1
 OK_EXC = (ValueError, TypeError)
 
 MAC_STYLES_MUST = ['colon-lower', 'colon-upper', 'hyphen-lower', 'hyphen-upper']
-MAC_STYLES_ALT = ['cisco', 'bare']
+MAC_STYLES_ALT = ['cisco', 'bare', 'unix', 'unix-hyphen', 'pgsql', 'bare-upper']      # (other dialects netaddr reads)
 V6_STYLES = ['compressed', 'exploded', 'upper', 'short']
 
 
@@ -91,6 +91,14 @@ def render_mac(mac, style):
         return '%04x.%04x.%04x' % (mac >> 32, (mac >> 16) & 0xffff, mac & 0xffff)
     if style == 'bare':
         return '%012x' % mac
+    if style == 'bare-upper':
+        return '%012X' % mac
+    if style == 'unix':             # netaddr.mac_unix: octets without zero padding
+        return ':'.join('%x' % b for b in o)
+    if style == 'unix-hyphen':
+        return '-'.join('%x' % b for b in o)
+    if style == 'pgsql':
+        return '%06x:%06x' % (mac >> 24, mac & 0xffffff)
     raise AssertionError(style)
 
 
